@@ -21,7 +21,8 @@ for all texts.  The checker that judges every pair of generated files is
 * `trailing_comment`: appending `// text` / `! text` to a line that ends in
   code state is accepted.
 * `commentEdit_accepted`: any finite sequence of such edits is accepted.
-* `stripC_idempotent`: stripping the rendered stripped text changes nothing.
+* `stripC_idempotent`, `stripF_idempotent`: stripping the rendered stripped text changes nothing.
+* `insert_needs_code_state`, `trailing_needs_code_state`: the code-state hypotheses cannot be dropped.
 -/
 namespace Shroud.Lex
 
@@ -299,6 +300,72 @@ theorem commentEdit_accepted (l : Lang) (a b : List Line) (h : CommentEdit l a b
   | untrail pre post ln c h1 h2 =>
     exact commentOnlyDiff_symm l _ _ (trailing_comment l pre post ln c h1 h2)
   | trans _ _ ih1 ih2 => exact commentOnlyDiff_trans l _ _ _ ih1 ih2
+
+/-! ### idempotence -/
+
+/-- **Idempotence**: removing comments from the (rendered) comment-free text changes nothing. -/
+theorem stripC_idempotent (t : List Char) : stripC (render (stripC t)) = stripC t := by
+  have h := run_sim t .code
+  simp only [reC] at h
+  unfold stripC
+  simp only [render_append]
+  rw [run_append, h]
+  cases hs : (run stepC .code t).1 <;> simp [flushC, render, run, stepC, stepCodeC]
+
+/-- the same for Fortran -/
+theorem stripF_idempotent (t : List Char) : stripF (render (stripF t)) = stripF t := by
+  have h := run_sim_f t .code
+  simp only [reF] at h
+  unfold stripF
+  simp only [render_append]
+  rw [run_append, h]
+  cases hs : (run stepF .code t).1 <;> simp [flushF, render, run, stepF, stepCodeF]
+
+
+/-! ### non-vacuity: instances of the hypotheses, and their necessity -/
+
+/-- a doxygen block, a debug comment and a blank line inserted between two declarations -/
+example : commentOnlyDiff .c (["int a;".toList] ++ ["int b;".toList])
+    (["int a;".toList] ++ ["  // Function:  int b".toList, "/**".toList, " * \\brief x".toList, " */".toList, []] ++
+      ["int b;".toList]) = true :=
+  insert_comment_block .c ["int a;".toList]
+    ["  // Function:  int b".toList, "/**".toList, " * \\brief x".toList, " */".toList, []] ["int b;".toList]
+    (by decide +kernel) (by decide +kernel)
+
+example : commentOnlyDiff .f (["x = f(a, &".toList, "   b)".toList] ++ ["y = 1".toList])
+    (["x = f(a, &".toList, "   b)".toList] ++ ["! start y".toList, "!! doc".toList] ++ ["y = 1".toList]) = true :=
+  insert_comment_block .f ["x = f(a, &".toList, "   b)".toList] ["! start y".toList, "!! doc".toList] ["y = 1".toList]
+    (by decide +kernel) (by decide +kernel)
+
+example : commentOnlyDiff .c (["int a;".toList] ++ "}".toList :: [])
+    (["int a;".toList] ++ ("}".toList ++ leader .c ++ "  namespace".toList) :: []) = true :=
+  trailing_comment .c ["int a;".toList] [] "}".toList "  namespace".toList (by decide +kernel) (by decide +kernel)
+
+example : isCommentBlock .c ["    // anything \" ' /* goes".toList] = true :=
+  line_comment_block_c "    ".toList " anything \" ' /* goes".toList (by decide +kernel) (by decide +kernel)
+
+example : isCommentBlock .f ["  !! it's \"doc\" & more".toList] = true :=
+  line_comment_block_f "  ".toList "! it's \"doc\" & more".toList (by decide +kernel) (by decide +kernel)
+
+/-- a changed identifier is rejected even when a comment still mentions the old one -/
+example : commentOnlyDiff .c ["int a;".toList] ["int b; // a".toList] = false := by decide +kernel
+
+/-- a line added by a debug branch without comment leader is rejected -/
+example : commentOnlyDiff .f ["x = 1".toList] ["second line".toList, "x = 1".toList] = false := by decide +kernel
+
+/-- The code-state hypothesis of `insert_comment_block` is needed: the same comment
+    line inserted inside an open `/* */` comment changes the tokens. -/
+theorem insert_needs_code_state :
+    ∃ pre blk post, isCommentBlock .c blk = true ∧ endsInCode .c (joinLines pre) = false ∧
+      commentOnlyDiff .c (pre ++ post) (pre ++ blk ++ post) = false :=
+  ⟨["/*".toList], ["// */".toList], ["*/ x".toList], by decide +kernel, by decide +kernel, by decide +kernel⟩
+
+/-- The code-state hypothesis of `trailing_comment` is needed: after a pending `/` the
+    appended `//` swallows it. -/
+theorem trailing_needs_code_state :
+    ∃ ln c, plainComment c = true ∧ endsInCode .c ln = false ∧
+      commentOnlyDiff .c [ln] [ln ++ leader .c ++ c] = false :=
+  ⟨"a /".toList, " c".toList, by decide +kernel, by decide +kernel, by decide +kernel⟩
 
 end Shroud.Lex
 
